@@ -243,10 +243,13 @@ fn exec_lin(s2: &Arc<Sched>, spy: &Spy, mp: &Option<MultiProgress>, mine: &BTree
     let m = || tok::cells_to_string(op.get("m").unwrap_or(&Value::Null));
     let pb = || mine.get(&b).and_then(|v| v.first()).cloned().unwrap();
     let closure = |text: String| {
-        s2.park(Pending::Step(Event { op: Op::Mark, label: "closure", obj: 0, before: true, arg: 0 }));
-        spy.set_user(true);
-        for l in text.split('\n') { let _ = indicatif::TermLike::write_line(spy, l); }
-        spy.set_user(false);
+        // a scheduling point before every line the closure writes
+        for l in text.split('\n') {
+            s2.park(Pending::Step(Event { op: Op::Mark, label: "closure", obj: 0, before: true, arg: 0 }));
+            spy.set_user(true);
+            let _ = indicatif::TermLike::write_line(spy, l);
+            spy.set_user(false);
+        }
     };
     match name {
         "tick" => pb().tick(),
